@@ -50,6 +50,10 @@ func FindCid(
 				fnErr = err
 				return false
 			}
+			if sectionLen > maxReadBytes {
+				fnErr = util.ErrSectionTooLarge
+				return false
+			}
 			var cidLen int
 			cidLen, readCid, err = cid.CidFromReader(reader)
 			if err != nil {
